@@ -53,6 +53,8 @@ def main():
         for f in demos:
             cands = [x.lstrip("./") for x in re.findall(r"([\w./-]*" + re.escape(f) + r")", readme) if "/" in x.lstrip("./")]
             cands = [x[len("tmp/seed-%s/" % pid):] if x.startswith("tmp/seed-") else x for x in cands]
+            cands = [x[len("github.com/cnotch/ipchub/"):] if x.startswith("github.com/cnotch/ipchub/") else x for x in cands]
+            cands = [x for x in cands if x.endswith(f) and os.path.isdir(os.path.join(wt, os.path.dirname(x) or "."))] or cands
             rel = cands[0] if cands else None
             if rel is None and f.endswith(".go"):
                 # fall back to the package clause: look for the directory whose package name matches
@@ -62,6 +64,28 @@ def main():
                     if found.strip():
                         rel = os.path.join(os.path.dirname(found.strip().lstrip("./")), f)
             src = os.path.join(outdir, f)
+            if os.path.isdir(src) and os.path.isdir(os.path.join(wt, f)):
+                # the delivery directory itself mirrors the repository layout (e.g. out/media/cache/x_test.go)
+                for root, _dirs, files in os.walk(src):
+                    for fn in files:
+                        relp = os.path.join(f, os.path.relpath(os.path.join(root, fn), src))
+                        os.makedirs(os.path.dirname(os.path.join(wt, relp)), exist_ok=True)
+                        shutil.copy(os.path.join(root, fn), os.path.join(wt, relp))
+                        if fn.endswith(".go"):
+                            placed.append(relp)
+                            placed_src.append(os.path.join(root, fn))
+                continue
+            if os.path.isdir(src) and any(os.path.isdir(os.path.join(wt, d)) for d in os.listdir(src)):
+                # a tree mirroring the repository layout: overlay it, every .go file in it is a demonstration
+                for root, _dirs, files in os.walk(src):
+                    for fn in files:
+                        relp = os.path.relpath(os.path.join(root, fn), src)
+                        os.makedirs(os.path.dirname(os.path.join(wt, relp)) or wt, exist_ok=True)
+                        shutil.copy(os.path.join(root, fn), os.path.join(wt, relp))
+                        if fn.endswith(".go"):
+                            placed.append(relp)
+                            placed_src.append(os.path.join(root, fn))
+                continue
             if os.path.isdir(src):
                 rel = rel or f
                 shutil.copytree(src, os.path.join(wt, rel), dirs_exist_ok=True)
